@@ -39,6 +39,9 @@ type fieldCase struct {
 	// alias: run on the symbolic API in alias mode (compound results are accumulators that MulAcc
 	// extends in place, as gnark's builders are allowed to)
 	alias bool
+	// unhook: leaf gadgets whose real body is executed in this case although field mode normally
+	// replaces them by their contract
+	unhook []string
 }
 
 type fctx struct {
@@ -121,6 +124,9 @@ func runFieldCase(r *Run, family string, c fieldCase, extraHooks map[string]hook
 	hooks := fieldHooks()
 	for k, v := range extraHooks {
 		hooks[k] = v
+	}
+	for _, k := range c.unhook {
+		delete(hooks, k)
 	}
 	setHooks(hooks)
 	defer clearHooks()
